@@ -32,6 +32,17 @@ func (f *fnState) keyCode(k SV) string {
 	if k.Sort == "(Array Int Int)" {
 		return fmt.Sprintf("(arrcode %s)", k.T)
 	}
+	if k.Sort == sLoc {
+		return fmt.Sprintf("(kpair (l-ref %s) (l-idx %s))", k.T, k.T)
+	}
+	if len(k.Agg) > 0 {
+		// struct keys (time.Time): the code of the tuple of component codes
+		code := f.keyCode(k.Agg[len(k.Agg)-1])
+		for i := len(k.Agg) - 2; i >= 0; i-- {
+			code = fmt.Sprintf("(kpair %s %s)", f.keyCode(k.Agg[i]), code)
+		}
+		return code
+	}
 	f.unsupported("map key of sort " + k.Sort)
 	return "0"
 }
